@@ -22,7 +22,15 @@ structure Fmt where
   maxOffsetCodes : Nat
   ringSize : Nat
   lhark : Bool
-deriving Repr
+deriving Repr, DecidableEq
+
+/-! the formats (constants of the methods, stated independently of the C source; the theorem
+`Props.C01.fmt_matches_source` compares them with what the compiled source says) -/
+def lh5 : Fmt := ⟨4, 510, 31, 15, 16384, false⟩     -- also -lh4-
+def lh6 : Fmt := ⟨5, 510, 31, 31, 65536, false⟩
+def lh7 : Fmt := ⟨5, 510, 31, 31, 131072, false⟩
+def lhx : Fmt := ⟨5, 510, 31, 31, 1048576, false⟩
+def lk7 : Fmt := ⟨6, 289, 31, 63, 65536, true⟩
 
 /-- a code-length value: 3 bits, 7 extended by a unary run of ones closed by a zero -/
 def lenVal (l : Nat) : List Bool :=
